@@ -136,7 +136,10 @@ CONTRACTS = {
     ),
     "vsg.vhdlFile.utils.object_value_is": dict(
         types={"lAllObjects": "list[%s]" % ITEM, "iToken": "int", "sString": "str"},
-        requires=["0 <= iToken", "iToken < len(lAllObjects)"],
+        requires=["0 <= iToken"],
+        # an index at or beyond the end of the list is an IndexError (what a look-ahead past the end of a malformed file does)
+        raises=["IndexError"],
+        raises_when={"IndexError": "iToken >= len(lAllObjects)"},
         returns="bool",
         # keyword tests are case-insensitive: they compare the lower-cased value
         ensures=["result == (lAllObjects[iToken].lower_value == sString.lower())"],
@@ -297,6 +300,55 @@ CONTRACTS.update(
                     ]
                 )
             },
+        ),
+    }
+)
+
+# ---------------------------------------------------------------------------------------------- parser loops (C19: no hang)
+# The statement-part loops of the parser terminate because of their no-progress guard.  `element` is a classifier module
+# (concurrent_statement, sequential_statement, ...): its detect/classify are virtual here; ASSUMED: they never return an index
+# in front of the one they were given nor beyond the list, keep the length of the list, and classify() consumes something.
+CLASSIFIER = "obj:classifier"
+CONTRACTS.update(
+    {
+        "classifier.detect": dict(
+            external=True,
+            params=["self", "iToken", "lObjects"],
+            types={"iToken": "int", "lObjects": "list[%s]" % ITEM},
+            returns="int",
+            modifies=["lObjects"],
+            raises=["ClassifyError", "IndexError"],
+            ensures=["result >= iToken", "result <= len(lObjects) or result == iToken", "len(lObjects) == len(old(lObjects))"],
+            trusted="abstract contract of a virtual classifier entry point (a module passed as a parameter)",
+        ),
+        "classifier.classify": dict(
+            external=True,
+            params=["self", "iToken", "lObjects"],
+            types={"iToken": "int", "lObjects": "list[%s]" % ITEM},
+            returns="int",
+            modifies=["lObjects"],
+            raises=["ClassifyError", "IndexError"],
+            ensures=["result > iToken", "result <= len(lObjects)", "len(lObjects) == len(old(lObjects))"],
+            trusted="abstract contract of a virtual classifier entry point: classify() consumes at least one token or raises",
+        ),
+        "vsg.vhdlFile.utils.detect_subelement_until": dict(
+            types={"sToken": "str", "element": CLASSIFIER, "iToken": "int", "lObjects": "list[%s]" % ITEM},
+            requires=["0 <= iToken", "iToken <= len(lObjects)"],
+            returns="int",
+            modifies=["lObjects"],
+            raises=["ClassifyError", "IndexError"],
+            ensures=["result >= iToken"],
+            # total: every iteration either returns or moves strictly forward in a list of fixed length
+            loops={1: dict(invariant=["iToken <= iCurrent", "iCurrent <= len(lObjects)", "len(lObjects) == len(old(lObjects))"], decreases="len(lObjects) - iCurrent")},
+        ),
+        "vsg.vhdlFile.utils.classify_subelement_until": dict(
+            types={"sToken": "str", "element": CLASSIFIER, "iToken": "int", "lObjects": "list[%s]" % ITEM},
+            requires=["0 <= iToken", "iToken <= len(lObjects)"],
+            returns="int",
+            modifies=["lObjects"],
+            raises=["ClassifyError", "IndexError"],
+            ensures=["result >= iToken"],
+            loops={1: dict(invariant=["iToken <= iCurrent", "iCurrent <= len(lObjects)", "len(lObjects) == len(old(lObjects))"], decreases="len(lObjects) - iCurrent")},
         ),
     }
 )
